@@ -1,9 +1,12 @@
-// Package simtime replaces "time" in the translator under test: Now returns a
-// different, tape-derived instant on every call, so output that embeds a
+// Package simtime replaces "time" in code under test. Now, Sleep, timers and
+// tickers read the simulated clock of simrt. With Jitter set (the translator
+// check, where no arithmetic is done on instants) Now instead returns a
+// different, tape-derived instant on every call, so that output which embeds a
 // timestamp differs between the golden and a simulated run.
 package simtime
 
 import (
+	"os"
 	"sync"
 	"time"
 
@@ -48,8 +51,19 @@ var (
 
 var calls int64
 
-// Now: simulated clock plus a tape-derived jitter plus a per-call counter.
+// Jitter makes Now return wildly different instants on every call (see the
+// package comment); off, Now is the monotonic simulated clock.
+var Jitter = os.Getenv("VERIF_TIME_JITTER") == "1"
+
+// Now: the simulated clock; with Jitter, plus a tape-derived offset of up to
+// 120 years and a per-call counter.
 func Now() Time {
+	if !Jitter {
+		if simrt.Active() == nil {
+			return time.Unix(1_000_000_000, 0).UTC()
+		}
+		return time.Unix(1_000_000_000, 0).UTC().Add(time.Duration(simrt.NowNs()))
+	}
 	calls++
 	if simrt.Active() == nil {
 		return time.Unix(1_000_000_000+calls, 0).UTC()
